@@ -4,6 +4,9 @@ import (
 	"bytes"
 	"fmt"
 	"os"
+	"runtime/debug"
+	"sort"
+	"strings"
 	"sync"
 
 	"github.com/quickfixgo/quickfix"
@@ -202,4 +205,117 @@ func c09TextProbe(env *Env) {
 		})
 		env.Stat("probe_api_dictionary_text")
 	}
+}
+
+// c09FactoryProbe builds an acceptor or initiator from settings in which a few values are absurd (the
+// statement's "loading any settings"): the constructors must return an engine or an error.
+func c09FactoryProbe(env *Env) {
+	ch := env.Ch
+	bad := map[string][]string{
+		"HeartBtInt":             {"-1", "0", "abc", "99999999999999999999", "", "1.5"},
+		"StartTime":              {"25:61:00", "aa", "", "12:00", "-1:00:00", "12:00:00:00"},
+		"EndTime":                {"24:00:00", "x", ""},
+		"StartDay":               {"Noday", "", "Mon day"},
+		"EndDay":                 {"Fryday", ""},
+		"Weekdays":               {"Mon,,Tue", "Xyz", ",", ""},
+		"TimeZone":               {"Mars/Phobos", "", "UTC+99"},
+		"ReconnectInterval":      {"-5", "0", "x"},
+		"LogonTimeout":           {"-1", "0", "abc"},
+		"LogoutTimeout":          {"-1", "0", ""},
+		"MaxLatency":             {"x", "-3", "0"},
+		"ResendRequestChunkSize": {"-1", "x"},
+		"TimeStampPrecision":     {"PICOS", ""},
+		"DataDictionary":         {"/nonexistent.xml", ""},
+		"TransportDataDictionary": {"/nonexistent.xml"},
+		"AppDataDictionary":      {"/nonexistent.xml"},
+		"DefaultApplVerID":       {"", "99", "FIX.9.9"},
+		"InChanCapacity":         {"-1", "x", "99999999999"},
+		"SocketAcceptPort":       {"-1", "x", "99999999"},
+		"SocketConnectPort":      {"", "x"},
+		"ResetOnLogon":           {"maybe", ""},
+		"PersistMessages":        {"2", ""},
+		"BeginString":            {"FIX.9.9", "", "FIXT.1.1"},
+		"SenderCompID":           {""},
+		"EnableLastMsgSeqNumProcessed": {"x"},
+		"ResetSeqTime":           {"25:00:00", "x"},
+	}
+	keys := make([]string, 0, len(bad))
+	for k := range bad {
+		keys = append(keys, k)
+	}
+	sort.Strings(keys)
+	initiator := ch.Chance("factoryinitiator", 1, 2)
+	st := quickfix.NewSettings()
+	g := st.GlobalSettings()
+	if initiator {
+		g.Set("SocketConnectHost", "127.0.0.1")
+		g.Set("SocketConnectPort", "5001")
+		g.Set("HeartBtInt", "30")
+	} else {
+		g.Set("SocketAcceptPort", "5001")
+	}
+	ss := quickfix.NewSessionSettings()
+	ss.Set("BeginString", "FIX.4.2")
+	ss.Set("SenderCompID", "PROBE")
+	ss.Set("TargetCompID", "PEERPROBE")
+	var desc []string
+	for k := 1 + ch.Choose("badsettings", 3); k > 0; k-- {
+		key := keys[ch.Choose("badkey", len(keys))]
+		val := bad[key][ch.Choose("badval", len(bad[key]))]
+		ss.Set(key, val)
+		desc = append(desc, key+"="+val)
+	}
+	defer func() {
+		if r := recover(); r != nil {
+			env.Violate("C09/api-panic", "building an engine (initiator=%v) from settings %v panicked: %v; %s", initiator, desc, r, engineFrames(debug.Stack()))
+		}
+	}()
+	sid, err := st.AddSession(ss)
+	if err != nil {
+		return
+	}
+	env.Stat("probe_api_engine_from_absurd_settings")
+	app := nopApp{}
+	if initiator {
+		if in, err := quickfix.NewInitiator(app, quickfix.NewMemoryStoreFactory(), st, quickfix.NewNullLogFactory()); err == nil && in != nil {
+			quickfix.UnregisterSession(sid)
+		}
+	} else {
+		if ac, err := quickfix.NewAcceptor(app, quickfix.NewMemoryStoreFactory(), st, quickfix.NewNullLogFactory()); err == nil && ac != nil {
+			quickfix.UnregisterSession(sid)
+		}
+	}
+	// a session that was registered before the constructor failed must not stay behind
+	quickfix.UnregisterSession(sid)
+}
+
+// engineFrames extracts the engine's own function names from a stack trace.
+func engineFrames(stack []byte) string {
+	var fr []string
+	for _, l := range strings.Split(string(stack), "\n") {
+		if strings.HasPrefix(l, "github.com/quickfixgo/quickfix") && !strings.Contains(l, "verifsim") {
+			if i := strings.LastIndex(l, "("); i > 0 {
+				l = l[:i]
+			}
+			fr = append(fr, strings.TrimPrefix(l, "github.com/quickfixgo/quickfix"))
+			if len(fr) >= 6 {
+				break
+			}
+		}
+	}
+	return strings.Join(fr, " < ")
+}
+
+type nopApp struct{}
+
+func (nopApp) OnCreate(quickfix.SessionID)                           {}
+func (nopApp) OnLogon(quickfix.SessionID)                            {}
+func (nopApp) OnLogout(quickfix.SessionID)                           {}
+func (nopApp) ToAdmin(*quickfix.Message, quickfix.SessionID)         {}
+func (nopApp) ToApp(*quickfix.Message, quickfix.SessionID) error     { return nil }
+func (nopApp) FromAdmin(*quickfix.Message, quickfix.SessionID) quickfix.MessageRejectError {
+	return nil
+}
+func (nopApp) FromApp(*quickfix.Message, quickfix.SessionID) quickfix.MessageRejectError {
+	return nil
 }
